@@ -373,7 +373,13 @@ class Model:
             eff = self.effects()
             pure = set()
             for f in self.all_functions():
-                if eff.summary.get(f):
+                mutated = set(eff.summary.get(f, ()))
+                if f.name == "__init__" and f.kind == "method":
+                    # a constructor writing its own fresh 'self' has no effect visible to the caller
+                    args_ = f.node.args.posonlyargs + f.node.args.args
+                    if args_:
+                        mutated.discard(args_[0].arg)
+                if mutated:
                     continue
                 params = {a.arg for a in f.node.args.posonlyargs + f.node.args.args + f.node.args.kwonlyargs}
                 local_names = set(params)
